@@ -183,6 +183,8 @@ pub fn run_behaviour(pr: Proto, beh: &Beh, inst: &BInst, km: &KeyMat, book: &mut
                 bops.push(BOp::ExtendClaims(vec![(ck, obj)]));
             }
             "ack" => bops.push(BOp::Ack),
+            // time passes between two calls (the defaults stay those of the creation instant)
+            "tick" => bops.push(BOp::Sleep(1100)),
             "footer" => bops.push(BOp::SetFooter(inst.footer.clone())),
             "assertion" => bops.push(BOp::SetAssertion(inst.assertion.clone())),
             "build" => bops.push(BOp::Build),
@@ -190,8 +192,10 @@ pub fn run_behaviour(pr: Proto, beh: &Beh, inst: &BInst, km: &KeyMat, book: &mut
         }
     }
     let t0 = OffsetDateTime::now_utc();
+    CREATED.with(|c| *c.borrow_mut() = None);
     let outs = run_builder(pr, layer, &bops, km);
-    let t1 = OffsetDateTime::now_utc();
+    // defaults are those of the builder's creation: the bracket ends right after default() returned
+    let t1 = CREATED.with(|c| *c.borrow()).unwrap_or_else(OffsetDateTime::now_utc);
     let mut outs = outs.into_iter();
     // footer / assertion in force at each build
     let mut footer: Option<&str> = None;
